@@ -341,12 +341,15 @@ theorem batches (ext : Ext) (fields : List Field) (r0 : B) (h0 : newRoot fields 
   intro out rows ⟨hh, hb⟩
   exact ⟨hh.wf, All2.length hh.rows, hb⟩
 
-/-- **batches (content).** For covered schemas and records without raw call streams: build k sees a root whose
+/-- **batches (content).** For covered schemas and records whose raw call streams alternate (`hraw`; `hnar`: the
+sentinel bound of `C01.push_interp`, needed only when some record contains a raw stream): build k sees a root whose
 rows are exactly `interpRow` of the records added since build k-1, in order (a 0-row build sees no rows), and
 returns `finishFields` of that state; the builder continues from the fresh builder. -/
 theorem batches_interp (ext : Ext) (fields : List Field) (r0 : B) (hc : fields.all coveredF = true)
     (h0 : newRoot fields = .ok r0) (hsafe : Safe r0)
-    (ops : List Op) (hraw : OpsOK (fun x => noRaw x = true) ops) (outs : List (B × List Arr)) (fin : B)
+    (ops : List Op) (hraw : OpsOK (fun x => structStreamsAlternate x = true) ops)
+    (hnar : OpsOK (fun x => noRaw x = true) ops ∨ narrowRoot fields = true)
+    (outs : List (B × List Arr)) (fin : B)
     (h : run ext r0 ops = .ok (outs, fin)) :
     All2 (fun (out : B × List Arr) rows =>
         WFB out.1 ∧ All2 (fun lv x => interpRow ext fields x = .ok lv) (dec out.1) rows ∧
@@ -354,14 +357,17 @@ theorem batches_interp (ext : Ext) (fields : List Field) (r0 : B) (hc : fields.a
       outs (batchesFrom [] ops) := by
   have hfresh := newRoot_fresh h0
   have hshape := newRoot_shape hc h0
-  have := batches_gen ext r0 (fun x lv => interpRow ext fields x = .ok lv) (fun x => noRaw x = true)
+  have hcomb : OpsOK (fun x => structStreamsAlternate x = true ∧ (noRaw x = true ∨ narrowRoot fields = true)) ops :=
+    fun op ho x hx => ⟨hraw op ho x hx, hnar.imp (fun h => h op ho x hx) id⟩
+  have := batches_gen ext r0 (fun x lv => interpRow ext fields x = .ok lv)
+    (fun x => structStreamsAlternate x = true ∧ (noRaw x = true ∨ narrowRoot fields = true))
     (by
     intro b b' x hw hs ht hraw hp
     have hsh : Shape b (.struct (Fields.ofList fields)) false [] :=
       Shape.of_takeRest (ht.trans hfresh.2.2.symm) hshape
-    obtain ⟨_, _, _, lv, hd, hi⟩ := C01.push_interp ext x b b' _ _ _ hraw hw hs hsh hp
+    obtain ⟨_, _, _, lv, hd, hi⟩ := C01.push_interp ext x b b' _ _ _ hraw.1 hraw.2 hw hs hsh hp
     exact ⟨lv, hd, hi⟩) fields h0 hsafe ops r0 [] outs fin
-    ⟨hfresh.1, hsafe, hfresh.2.2, by rw [hfresh.2.1]; exact All2.nil⟩ hraw h
+    ⟨hfresh.1, hsafe, hfresh.2.2, by rw [hfresh.2.1]; exact All2.nil⟩ hcomb h
   refine All2.imp ?_ this
   intro out rows ⟨hh, hb⟩
   exact ⟨hh.wf, hh.rows, hb⟩
